@@ -258,7 +258,9 @@ fn check(c: &Case) -> Verdict {
             scrolled = true;
         }
     }
-    buf.stop_sixel_threads();
+    while let Some(h) = buf.sixel_threads.pop_front() {
+        let _ = h.join();
+    }
     Verdict::pass(moved && scrolled, emu_group(c.emu))
 }
 
@@ -347,7 +349,7 @@ fn main() {
         },
         check,
     );
-    eng.generated_min(PartCfg::new("random_streams", 150_000, 4_000_000).isolated().crash_is_violation(false).timeout_ms(30_000), || random_cases(60), check, |_| "-".into(), minimize);
+    eng.generated_min(PartCfg::new("random_streams", 150_000, 4_000_000).isolated().crash_is_violation(false).heapcap_is_violation(false).timeout_ms(30_000), || random_cases(60), check, |_| "-".into(), minimize);
     if eng.is_thorough() {
         // 4-token sequences over a 25-token core alphabet on 80x25 and 2x2
         let core: Vec<Tok> = alpha.iter().step_by(3).take(25).cloned().collect();
